@@ -8,11 +8,11 @@ PROP = "C05"
 def plans(tier):
     s = vlib.seed()
     if tier == "quick":
-        return [dict(gens="arbitrary,collapse,star,hole,spiral", variants="base,keep,rev", n=1200, W=6, nmax=12, bias=0.6, seed=s),
+        return [dict(gens="arbitrary,collapse,star,hole,spiral,court", variants="base,keep,rev", n=1400, W=6, nmax=12, bias=0.6, seed=s),
                 dict(gens="arbitrary", variants="base,keep", n=600, W=3, nmax=16, bias=0.7, seed=s + 1)]
     return [dict(gens="arbitrary,collapse,star,hole", variants="base,keep,rev", n=40000, W=6, nmax=14, bias=0.6, seed=s),
             dict(gens="arbitrary", variants="base,keep", n=30000, W=3, nmax=20, bias=0.7, seed=s + 1),
-            dict(gens="collapse,hole,spiral", variants="base,keep,rev", n=20000, W=8, nmax=12, bias=0.6, seed=s + 2)]
+            dict(gens="collapse,hole,spiral,court", variants="base,keep,rev", n=24000, W=8, nmax=12, bias=0.6, seed=s + 2)]
 
 
 def real_plans(tier):
